@@ -75,9 +75,11 @@ def gen_data_spec(rng, n_surveys=1, unit=None, n_epochs=None, layout=None, t_ref
         surveys.append(dict(unit=sunit, err_unit=eunit, t=[float(x) for x in tk[order]], rv=[float(x) for x in rvv[order]],
                             err=[float(x) for x in (sig * fe)[order]]))
     t_ref_kind = t_ref_kind or ("default" if (n_surveys > 1 or rng.random() < 0.6) else
-                                str(rng.choice(["inside", "before", "far"], p=[.5, .4, .1])))
+                                str(rng.choice(["inside", "before", "far", "none"], p=[.45, .35, .08, .12])))
     t_ref = None
-    if n_surveys == 1 and t_ref_kind != "default":
+    if n_surveys == 1 and t_ref_kind == "none":
+        t_ref = 0.0            # RVData(..., t_ref=False): no reference epoch is subtracted, i.e. BMJD 0
+    elif n_surveys == 1 and t_ref_kind != "default":
         t_ref = {"inside": float(rng.uniform(t.min(), t.max() + 1e-3)), "before": float(t.min() - rng.uniform(1, 300)),
                  "far": float(t.min() - rng.uniform(3000, 20000))}[t_ref_kind]
     form = "single" if n_surveys == 1 else str(rng.choice(["list", "dict"], p=[.6, .4]))
@@ -89,7 +91,7 @@ def gen_data_spec(rng, n_surveys=1, unit=None, n_epochs=None, layout=None, t_ref
     # `t_ref` below stays the TCB value (what the data's BMJD are compared with), `t_ref_input` is what is passed
     t_ref_scale = "tcb"
     t_ref_input = t_ref
-    if t_ref is not None:
+    if t_ref is not None and t_ref_kind != "none":
         t_ref_scale = str(rng.choice(["tcb", "utc", "tdb"], p=[.4, .4, .2]))
         if t_ref_scale != "tcb":
             from astropy.time import Time
@@ -107,7 +109,9 @@ def build_data(dspec):
     objs = []
     for s in dspec["surveys"]:
         kw = {}
-        if dspec["t_ref"] is not None and len(dspec["surveys"]) == 1:
+        if dspec.get("t_ref_kind") == "none" and len(dspec["surveys"]) == 1:
+            kw["t_ref"] = False
+        elif dspec["t_ref"] is not None and len(dspec["surveys"]) == 1:
             kw["t_ref"] = Time(dspec.get("t_ref_input", dspec["t_ref"]), format="mjd", scale=dspec.get("t_ref_scale", "tcb"))
         objs.append(RVData(np.array(s["t"]), np.array(s["rv"]) * U(s["unit"]),
                            np.array(s["err"]) * U(s.get("err_unit", s["unit"])), **kw))
